@@ -74,6 +74,7 @@ func propC01(c *Ctx) string {
 	c01FieldUse(c)
 	c01FieldMix(c)
 	c01Const(c, "C01/CONST")
+	c01HdrBound(c, "C01/HDRBOUND")
 	c.NotDecide("byte values against an independent reference codec (layout per spec)", "field-for-field equality after decode", "that encoding succeeds for every well-formed value", "binary.PutUvarint writes varintLen(n) bytes for n <= maxVarint (standard library fact, pinned by the CONST thresholds)")
 	c.Assume("write helpers fill exactly the bytes they report (summaries are extracted from their bodies; copy() into a buffer checked to be >= Len())")
 	return c01Explanation
@@ -557,6 +558,7 @@ func propC02(c *Ctx) string {
 	c02Bounds(c, "C02")
 	c02Pool(c, "C02/POOL")
 	c01Const(c, "C02/CONST")
+	c01HdrBound(c, "C02/HDRBOUND")
 	c.NotDecide("accept ≡ reference decoder with identical fields",
 		"semantic validation details (reserved bits, flag consistency) beyond the encoder/decoder agreement on application messages",
 		"panics other than out-of-range index/slice, negative make/Grow sizes and encoding/binary preconditions (nil dereference, failed type assertion: see C14/ASSERT; explicit panic(): see C14/PANIC)")
@@ -1078,6 +1080,8 @@ func propC03(c *Ctx) string {
 	c03WSLimit(c)
 	c02Pool(c, "C03/POOL")
 	c01Const(c, "C03/DETECT")
+	// Encoder.Write ships buf[:Len()] of a pooled buffer: if Len() and Encode disagree, stale bytes go on the wire
+	c01Size(c)
 	c.NotDecide("identical packets under every fragmentation/coalescing of the byte stream (behaviour of bufio.Reader, io.ReadFull)", "wire bytes == concatenation of encodings under async flush timing (mercury.Writer)", "WebSocket message stitching beyond the reader-switch rule (gorilla/websocket)")
 	c.Assume("bufio.Reader.Peek/io.ReadFull semantics", "mercury.Writer is a FIFO byte stream")
 	return c03Explanation
@@ -2042,4 +2046,97 @@ func c01FieldMix(c *Ctx) {
 		r.Check("packet.(*"+pt.name+").Encode", bad == "", pos, nIf+1,
 			"a branch that does not refuse the packet is guarded by conditions over the unrelated fields "+bad+": the bytes written for one of them depend on the other, the decoder reads each from its own bits")
 	}
+}
+
+// c01HdrBound: decodeHeader serves every packet type, and a legal remaining length is any value up to maxVarint
+// (readVarint enforces that). The only bound decodeHeader itself may put on the decoded remaining length is the
+// length of the buffer it was given: a comparison of the remaining length with a constant in 1..maxVarint-1 refuses
+// well-formed packets that Encode produces (a SUBSCRIBE with one 65535-byte filter has remaining length 65540).
+func c01HdrBound(c *Ctx, prefix string) {
+	r := c.Rule(prefix, "TABLE", "decodeHeader bounds the decoded remaining length by the buffer only: it is never compared with a constant below maxVarint", 1)
+	fi := c.mustFunc(r, "packet.decodeHeader")
+	rv, _ := c.P.Global("packet", "readVarint").(*types.Func)
+	if fi == nil || rv == nil {
+		return
+	}
+	info := fi.Pkg.TypesInfo
+	h := &Interp{P: c.P, Info: info}
+	maxV := int64(268435455)
+	if k := c.P.Global("packet", "maxVarint"); k != nil {
+		if cst, ok := k.(*types.Const); ok {
+			if v, ok := constant.Int64Val(constant.ToInt(cst.Val())); ok {
+				maxV = v
+			}
+		}
+	}
+	derived := map[types.Object]bool{}
+	strip := func(e ast.Expr) ast.Expr {
+		for {
+			e = ast.Unparen(e)
+			call, ok := e.(*ast.CallExpr)
+			if !ok || len(call.Args) != 1 {
+				return e
+			}
+			if tv, ok := info.Types[call.Fun]; !ok || !tv.IsType() {
+				return e
+			}
+			e = call.Args[0]
+		}
+	}
+	for changed := true; changed; {
+		changed = false
+		ast.Inspect(fi.Decl.Body, func(m ast.Node) bool {
+			as, ok := m.(*ast.AssignStmt)
+			if !ok {
+				return true
+			}
+			if len(as.Rhs) == 1 && len(as.Lhs) >= 1 {
+				if call, ok := ast.Unparen(as.Rhs[0]).(*ast.CallExpr); ok {
+					if f, _ := typeutilCallee(info, call).(*types.Func); f == rv {
+						if o := h.lhsObj(as.Lhs[0]); o != nil && !derived[o] {
+							derived[o], changed = true, true
+						}
+						return true
+					}
+				}
+			}
+			for i, l := range as.Lhs {
+				if i < len(as.Rhs) {
+					if o := h.objOf(strip(as.Rhs[i])); o != nil && derived[o] {
+						if lo := h.lhsObj(l); lo != nil && !derived[lo] {
+							derived[lo], changed = true, true
+						}
+					}
+				}
+			}
+			return true
+		})
+	}
+	n, bad := 0, ""
+	var pos token.Pos = fi.Decl.Pos()
+	ast.Inspect(fi.Decl.Body, func(m ast.Node) bool {
+		be, ok := m.(*ast.BinaryExpr)
+		if !ok {
+			return true
+		}
+		switch be.Op {
+		case token.LSS, token.GTR, token.LEQ, token.GEQ, token.EQL, token.NEQ:
+		default:
+			return true
+		}
+		for _, pr := range [][2]ast.Expr{{be.X, be.Y}, {be.Y, be.X}} {
+			o := h.objOf(strip(pr[0]))
+			if o == nil || !derived[o] {
+				continue
+			}
+			n++
+			if tv, ok := info.Types[pr[1]]; ok && tv.Value != nil {
+				if k, ok := constant.Int64Val(constant.ToInt(tv.Value)); ok && k > 0 && k < maxV {
+					bad, pos = c.P.exprStr(be)+" compares the remaining length with the constant "+fmt.Sprint(k), be.Pos()
+				}
+			}
+		}
+		return true
+	})
+	r.Check(fi.Name+":remaining length bounded by the buffer only", bad == "" && n > 0 && len(derived) > 0, pos, n, bad+": well-formed packets of other types with a longer body (long filters, many return codes, a large CONNECT) are refused although Encode produces them")
 }
